@@ -66,6 +66,13 @@ func (w *binaryWriter) WriteNull() error {
 
 // WriteNullType writes a typed null.
 func (w *binaryWriter) WriteNullType(t Type) error {
+	if w.err != nil {
+		return w.err
+	}
+	if int(t) >= len(binaryNulls) {
+		w.err = &UsageError{"Writer.WriteNullType", fmt.Sprintf("invalid type %v", t)}
+		return w.err
+	}
 	return w.writeValue("Writer.WriteNullType", []byte{binaryNulls[t]})
 }
 
@@ -121,6 +128,10 @@ func (w *binaryWriter) WriteUint(val uint64) error {
 // WriteBigInt writes a big integer.
 func (w *binaryWriter) WriteBigInt(val *big.Int) error {
 	if w.err != nil {
+		return w.err
+	}
+	if val == nil {
+		w.err = &UsageError{"Writer.WriteBigInt", "value is nil"}
 		return w.err
 	}
 	if w.err = w.beginValue("Writer.WriteBigInt"); w.err != nil {
@@ -197,6 +208,14 @@ func (w *binaryWriter) WriteFloat(val float64) error {
 
 // WriteDecimal writes a decimal value.
 func (w *binaryWriter) WriteDecimal(val *Decimal) error {
+	if w.err != nil {
+		return w.err
+	}
+	if val == nil {
+		w.err = &UsageError{"Writer.WriteDecimal", "value is nil"}
+		return w.err
+	}
+
 	coef, exp := val.CoEx()
 
 	// If the value is positive 0. (aka 0d0) then L is zero, there are no length or
